@@ -650,6 +650,11 @@ class Path:
         self.n_branch_checks = 0
         self.depth_guard = 0
         self._last_model = None
+        # feas_unknown: this path was entered through a branch side the solver could not decide
+        self.feas_unknown = tuple(prefix) in getattr(explorer, 'alt_unknown', ())
+        # path_status: what the solver said about the current path condition (z3.sat / z3.unknown), None when a
+        # constraint was added since it was last asked; lets branch() skip the second query when the first is unsat
+        self.path_status = None if prefix else z3.sat
 
     # ---- fresh symbols (deterministic names so that re-execution lines up)
     def fresh_name(self, base):
@@ -664,6 +669,9 @@ class Path:
             self.solver.add(v.term >= lo)
         if hi is not None:
             self.solver.add(v.term <= hi)
+        if not ((lo is None or isinstance(lo, int)) and (hi is None or isinstance(hi, int)) and
+                (lo is None or hi is None or lo <= hi)):
+            self.path_status = None     # bounds that are not a plain non-empty interval may exclude everything
         if register:
             self.inputs[name] = v
         return v
@@ -709,8 +717,14 @@ class Path:
                 raise Infeasible()
             return
         self.solver.add(_b(cond))
+        self.path_status = None
         if why:
             self.assumed.append(why)
+
+    def lemma(self, fact):
+        """add a fact that is valid for the terms it mentions (a theory lemma the solver is slow to find): it cannot
+        change satisfiability, so the path status is kept"""
+        self.solver.add(_b(fact))
 
     def check_feasible(self):
         r = self.solver.check()
@@ -735,19 +749,56 @@ class Path:
             self.pos += 1
             self.taken.append(d)
             self.solver.add(t if d else z3.Not(t))
+            self.path_status = None
             return d
         self.n_branch_checks += 1
-        rt = self.solver.check(t)
-        rf = self.solver.check(z3.Not(t))
+        import time as _time
+        _t0 = _time.time()
+        # first a short attempt at both sides: when one side is refuted quickly the other needs no long search
+        full = self.ex.branch_timeout_ms
+        quick = min(full, 1500)
+        self.solver.set('timeout', quick)
+        try:
+            rt = self.solver.check(t)
+            if rt == z3.unsat and self.path_status is not None:
+                # the path condition excludes t, so the other side is the path condition itself: same answer as before
+                rf = self.path_status
+            else:
+                rf = self.solver.check(z3.Not(t))
+            if quick < full and rt != z3.unsat and rf != z3.unsat:
+                self.solver.set('timeout', full)
+                if rt == z3.unknown:
+                    rt = self.solver.check(t)
+                if rf == z3.unknown and rt != z3.unsat:
+                    rf = self.solver.check(z3.Not(t))
+                elif rf == z3.unknown and self.path_status is not None:
+                    rf = self.path_status
+        finally:
+            self.solver.set('timeout', full)
+        self.ex.stats['branch_s'] += _time.time() - _t0
+        if rt == z3.unknown or rf == z3.unknown:
+            self.ex.stats['unknown_branches'] += 1
         can_t = rt != z3.unsat
         can_f = rf != z3.unsat
         if not can_t and not can_f:
             raise Infeasible()
-        if can_t and can_f:
-            self.ex.push_alternative(self.taken + [False])
-            d = True
+        fork = can_t and can_f
+        if fork:
+            # continue on a side known to be satisfiable if there is one
+            d = not (rt == z3.unknown and rf == z3.sat)
+            other = rf if d else rt
+            alt = self.taken + [not d]
+            if other == z3.unknown:
+                self.ex.alt_unknown.add(tuple(alt))
+            self.ex.push_alternative(alt)
         else:
             d = can_t
+        status = rt if d else rf
+        if status == z3.unknown and not fork and self.path_status == z3.sat:
+            status = z3.sat      # the only side not refuted is the (satisfiable) path itself
+        self.path_status = status
+        if status == z3.unknown:
+            self.feas_unknown = True
         self.pos += 1
         self.taken.append(d)
         self.solver.add(t if d else z3.Not(t))
@@ -813,6 +864,7 @@ class Path:
             self.results.append(res)
             # continue the path as if the obligation held, so later obligations are independent
             self.solver.add(t)
+            self.path_status = None
             return False
         # unknown: second back end
         status, backend = self.ex.second_opinion(self.solver, z3.Not(t))
@@ -825,6 +877,7 @@ class Path:
             name, 'undecided', detail=f'solver: {self.solver.reason_unknown()} / {backend}:{status}',
             path_id=self.id, seconds=dt))
         self.solver.add(t)
+        self.path_status = None
         return None
 
     def model_of(self, m):
